@@ -107,6 +107,8 @@ pub struct DiskState {
     pub syncs_ok: u64,
     /// after a simulated power loss: the process is still unwinding, but nothing reaches the medium
     pub dead: bool,
+    /// the next close() reports an error (it still counts as the one close the contract allows)
+    pub fail_close: bool,
 }
 
 #[derive(Clone)]
@@ -145,6 +147,7 @@ impl SimDisk {
             sync_hook: None,
             syncs_ok: 0,
             dead: false,
+            fail_close: false,
         };
         SimDisk(Arc::new(Mutex::new(st)))
     }
@@ -422,6 +425,11 @@ impl redb::StorageBackend for SimDisk {
         s.closed = true;
         if s.record {
             s.log.push(Op::Close);
+        }
+        if s.fail_close {
+            s.fail_close = false;
+            s.stats.faults_fired[CallKind::Close as usize] += 1;
+            return Err(injected());
         }
         Ok(())
     }
